@@ -354,7 +354,7 @@ func (c *Conn) SetKeepAlive(bool) error               { return nil }
 func (c *Conn) SetKeepAlivePeriod(time.Duration) error {
 	return nil
 }
-func (c *Conn) SetNoDelay(bool) error        { return nil }
+func (c *Conn) SetNoDelay(bool) error       { return nil }
 func (c *Conn) MultipathTCP() (bool, error) { return false, nil }
 
 // ReadFrom / WriteTo are plain copy loops over Write / Read (no splice).
